@@ -316,9 +316,6 @@ pub fn real_layout_forgeries(ctx: &mut Ctx) {
                 ctx.stats.state(format!("{layout}|forger|{seam:?}|{oc}"));
                 if oc == expected_stop(seam) {
                     ctx.stats.probe(&format!("forger-stopped-only-by-intended-check:{seam:?}"));
-                } else if oc.starts_with("REJECT(Validation") || oc.starts_with("REJECT(PublicInputError") || oc.starts_with("REJECT(ColumnMissing") {
-                    // the forgery is malformed before it reaches its seam: a harness defect, not a verdict
-                    ctx.harness_error(&format!("forger ({layout}, {seam:?}) did not reach its seam: {}", run.outcome.describe()));
                 } else {
                     ctx.stats.probe(&format!("forger-stopped-elsewhere:{seam:?}:{oc}"));
                 }
